@@ -116,3 +116,12 @@ fn c10_raw_header_largest_lf() {
     std::mem::forget(warnings);
     std::mem::forget(buf);
 }
+
+#[kani::proof]
+#[kani::unwind(4)]
+fn c10_raw_header_total_68() {
+    let (ok, n, total, np, _) = raw_total::<68>();
+    kani::cover!(ok && total == 64, "an accepted 16-word file");
+    kani::cover!(ok && np == 3, "accepted file with three parameters");
+    kani::cover!(!ok && n == 68, "a rejected 68-byte file");
+}
